@@ -80,8 +80,7 @@ def run(pid, tier, seed, work, log, replay=None):
                     scen.append(json.load(open(os.path.join(fixed, f))))
     tb = V.build_harness(work)
     traces, crashed = V.run_scenarios(tb, scen, work, timeout=1500)
-    if crashed:
-        raise V.Inconclusive('harness process died: %s' % crashed[0][2][-800:])
+    res['violations'] += V.crash_verdicts(crashed, pid)
     allev, per = [], {}
     for s in scen:
         if s['id'] in traces:
